@@ -93,6 +93,8 @@ def run(M, rec, tier, seed, k, n):
             W.symbolic_steps(M, rec, rng, symvals, 420, points=3, opts_prob=0.15, before_case=on_case)
             W.closed_loop(M, rec, rng, 8, 400, before_case=on_case)
             W.small_valid_steps(M, rec, rng, 3, k, n, before_case=on_case, seed=seed)
+            # every valid 4-node topology (49 551 digraphs) with the reduced role set (253 151 networks)
+            W.small_valid_steps(M, rec, rng, 4, k, n, before_case=on_case, seed=seed + 1, kinds_full=False, only_n=4)
             W.symbolic_param_steps(M, rec, rng, symvals, 150, before_case=on_case)
     finally:
         mon.uninstall()
@@ -109,6 +111,9 @@ def finish(M, rec, write=True):
         for e in ("numpy", "SX", "MX"):
             rec.gate(e in rec.cover.get("engines", set()), f"engine {e} never observed")
         rec.gate(rec.counters.get("monitor_internal_errors", 0) == 0, "monitor internal errors")
+    nm = rec.extra.get("exhaustive_small_nmax")
+    rec.extra["exhaustive_subspaces"] = [f"every valid (topology, role) assignment on <= {3 if rec.tier == 'thorough' else 2} labelled nodes incl. self-loops"] + (
+        ["every valid topology on 4 labelled nodes with the reduced role set (2 origin kinds at sources, ramps at interior 1-out nodes, 2 destination kinds)"] if nm == 4 else [])
     return rec.finish(
         "ref_comparisons",
         ["sig_x_branches"],
